@@ -145,3 +145,168 @@ def fam_singular(g, prop, count, types, fn="gssv", nmax=7):
             lst.append(lu_scenario(g, "%s-sing%s-%05d-%s" % (prop, mode, i, ty), ty, n, fn=fn, A=A))
         out[ty] = lst
     return out
+
+
+# ----------------------------------------------------------------------------- expert driver / storage
+def gssvx_block(opts=None, work=None, events=0, fn="gssvx"):
+    """lines for one expert-driver call with the given option overrides; work = (lwork, align) or None"""
+    lines = []
+    if opts:
+        lines += opt_lines(opts)
+    lines.append("work %d %d" % work if work is not None else "nowork")
+    lines.append("events %d" % events)
+    lines.append("call " + fn)
+    return lines
+
+
+def sweep_matrix(g, ty, n):
+    cplx = is_cplx(ty)
+    if g.r.random() < 0.6:
+        return g.lu_product(n, cplx)
+    A, _ = g.matrix(n, n, cplx, style="pow2", kind=g.r.choice(["dense", "sparse", "band", "arrow"]))
+    return A
+
+
+def query_estimate(m, n, annz, panel, fill, dword, liword=4):
+    """the value ?LUMemInit reports for lwork = -1 (minus n): used only to choose the range of the sweep"""
+    iword = 4
+    glu_int = 5 * n + 5
+    temp = (2 * panel + 4 + 3) * m * iword + (panel + 1) * m * dword
+    nz = int(fill * annz)
+    return glu_int * iword + temp + 2 * nz * iword + 2 * nz * dword
+
+
+DWORD = {"s": 4, "d": 8, "c": 8, "z": 16}
+
+
+def arrow_matrix(n, cplx):
+    """dense first row and column + diagonal, natural order: U fills completely (forces UCOL/USUB growth)"""
+    A = {}
+    for i in range(n):
+        A[(i, i)] = (2.0, 0.0)
+        A[(0, i)] = (1.0, 0.0)
+        A[(i, 0)] = (1.0, 0.0)
+    A[(0, 0)] = (4.0, 0.0)
+    return A
+
+
+def fam_sweep(g, prop, ty, specs, aligns, fn="gssvx", family="sweep", step=4, slack=200, arrow=False):
+    """every workspace length from one word to beyond the requirement x alignments, for the matrices described by
+    specs = [(n, fill), ...]: one scenario per run, each preceded by a reference run with library allocation and
+    no expansion (fill 30)"""
+    out = []
+    cplx = is_cplx(ty)
+    ilu = fn == "gsisx"
+    for mi, (n, fill) in enumerate(specs):
+        A = arrow_matrix(n, cplx) if arrow else sweep_matrix(g, ty, n)
+        tune = [1, 1, 1, 1, 1, fill, 1] if arrow else g.tune()
+        tune[5] = fill
+        colperm = NATURAL if arrow else g.r.choice([NATURAL, COLAMD, MMD_ATA])
+        B = g.rhs_for(A, n, 1, cplx)
+        head = g.mat_lines(A, n, n, "NC", cplx) + g.rhs_lines(B, n, 1, n, cplx)
+        base_opts = {"iludefault" if ilu else "default": 0, "ColPerm": colperm, "Equil": 0}
+        if ilu:
+            base_opts.update({"DropRule": 0, "DropTol": 0.0, "RowPerm": 0})
+        top = query_estimate(n, n, len(A), tune[0], fill, DWORD[ty]) + slack
+        for al in aligns:
+            for lw in range(step, top, step):
+                sid = "%s-%s%s-m%02df%da%d-%05d-%s" % (prop, family, "ilu" if ilu else "", mi, fill, al, lw, ty)
+                ref_tune = list(tune); ref_tune[5] = 30
+                lines = ["tune " + " ".join(map(str, ref_tune))] + head + opt_lines(base_opts)
+                lines += gssvx_block(work=None, events=0, fn=fn)
+                lines += ["destroy LU", "tune " + " ".join(map(str, tune))]
+                lines += g.rhs_lines(B, n, 1, n, cplx)
+                lines += gssvx_block(work=(lw, al), events=3, fn=fn)
+                out.append({"id": sid, "lines": lines, "n": n})
+    return out
+
+
+def fam_storage(g, prop, count, types, fn="gssvx", nmax=7):
+    """C07: one matrix, many ways of obtaining the factor storage: reference (library allocation, fill 30), then
+    fill estimates 1..3 with library allocation (0..many expansions) and caller workspaces of several sufficient
+    lengths and both alignments.  All successful runs of a scenario must agree bit for bit."""
+    out = {}
+    ilu = fn == "gsisx"
+    for ty, k in split_types(count, types).items():
+        cplx = is_cplx(ty)
+        lst = []
+        for i in range(k):
+            n = g.r.randint(2, nmax)
+            A = sweep_matrix(g, ty, n)
+            tune = g.tune()
+            colperm = g.r.choice([NATURAL, COLAMD, MMD_ATA, MMD_AT_PLUS_A])
+            B = g.rhs_for(A, n, 1, cplx)
+            opts = {"iludefault" if ilu else "default": 0, "ColPerm": colperm, "Equil": 0, "u": float(g.r.choice([1.0, 0.5, 0.125]))}
+            if ilu:
+                opts.update({"DropRule": g.r.choice([0, 0, 1, 9]), "DropTol": g.r.choice([0.0, 0.0, 0.0009765625]), "RowPerm": 0})
+            ref_tune = list(tune); ref_tune[5] = 30
+            lines = ["tune " + " ".join(map(str, ref_tune))] + g.mat_lines(A, n, n, "NC", cplx) + g.rhs_lines(B, n, 1, n, cplx) + opt_lines(opts)
+            lines += gssvx_block(work=None, events=3, fn=fn)
+            for fill in (1, 2, 3):
+                t2 = list(tune); t2[5] = fill
+                lines += ["destroy LU", "tune " + " ".join(map(str, t2))] + g.rhs_lines(B, n, 1, n, cplx)
+                lines += gssvx_block(work=None, events=3, fn=fn)
+                est = query_estimate(n, n, len(A), tune[0], fill, DWORD[ty])
+                for delta in g.r.sample([0, 8, 40, 120, 400, 2000], 2):
+                    al = g.r.choice([0, 4])
+                    lines += ["destroy LU"] + g.rhs_lines(B, n, 1, n, cplx)
+                    lines += gssvx_block(work=(est + delta + 8 * n * DWORD[ty], al), events=3, fn=fn)
+                    lines += ["destroy LUuser"]
+                    lines += ["nowork"]
+            lines += ["destroy LU"]
+            lst.append({"id": "%s-storage%s-%05d-%s" % (prop, "ilu" if ilu else "", i, ty), "lines": lines, "n": n})
+        out[ty] = lst
+    return out
+
+
+def fam_query(g, prop, count, types):
+    """lwork = -1 on a context that holds earlier results (so that any side effect shows)"""
+    out = {}
+    for ty, k in split_types(count, types).items():
+        cplx = is_cplx(ty)
+        lst = []
+        for i in range(k):
+            n = g.r.randint(1, 7)
+            A = sweep_matrix(g, ty, n)
+            fn = g.r.choice(["gssvx", "gssvx", "gsisx"])
+            ilu = fn == "gsisx"
+            B = g.rhs_for(A, n, 1, cplx)
+            opts = {"iludefault" if ilu else "default": 0, "ColPerm": g.r.choice([NATURAL, COLAMD, MMD_ATA]), "Equil": g.r.choice([0, 1]),
+                    "Trans": g.r.choice([0, 1]), "PivotGrowth": g.r.choice([0, 1]), "Cond": g.r.choice([0, 1])}
+            if ilu:
+                opts["RowPerm"] = g.r.choice([0, 1])
+            lines = ["tune " + " ".join(map(str, g.tune()))] + g.mat_lines(A, n, n, g.r.choice(["NC", "NR"]), cplx) + g.rhs_lines(B, n, 1, n, cplx) + opt_lines(opts)
+            if g.r.random() < 0.5:      # query on a fresh context, or after a real factorization
+                lines += gssvx_block(work=None, fn=fn) + ["destroy LU"] + g.rhs_lines(B, n, 1, n, cplx)
+            lines += gssvx_block(work=(-1, 0), events=3, fn=fn)
+            lst.append({"id": "%s-query%s-%05d-%s" % (prop, "ilu" if ilu else "", i, ty), "lines": lines, "n": n})
+        out[ty] = lst
+    return out
+
+
+def fam_failpos(g, prop, count, types):
+    """library allocation: the k-th allocation request of the call returns NULL, for every k (one scenario each)"""
+    out = {}
+    for ty, kk in split_types(count, types).items():
+        cplx = is_cplx(ty)
+        lst = []
+        for i in range(kk):
+            n = g.r.randint(2, 5)
+            A = arrow_matrix(n + 2, cplx) if g.r.random() < 0.4 else sweep_matrix(g, ty, n)
+            n = max(k[0] for k in A) + 1
+            fn = g.r.choice(["gssvx", "gssvx", "gsisx"])
+            ilu = fn == "gsisx"
+            B = g.rhs_for(A, n, 1, cplx)
+            tune = g.tune(); tune[5] = 1
+            opts = {"iludefault" if ilu else "default": 0, "ColPerm": NATURAL, "Equil": 0}
+            if ilu:
+                opts["RowPerm"] = 0
+            head = ["tune " + " ".join(map(str, tune))] + g.mat_lines(A, n, n, "NC", cplx) + g.rhs_lines(B, n, 1, n, cplx) + opt_lines(opts)
+            # "@expand": only the allocation requests made by ?expand (factor-growth requests) are failed;
+            # sticky 0 = that one request fails (a smaller retry may succeed), 1 = every request from the k-th on
+            for sticky in (0, 1):
+                for k in range(1, 10):
+                    lines = list(head) + ["failalloc @expand 0 %d %d" % (k, sticky)] + gssvx_block(work=None, events=3, fn=fn) + ["nofail"]
+                    lst.append({"id": "%s-failpos%s-%03dk%02ds%d-%s" % (prop, "ilu" if ilu else "", i, k, sticky, ty), "lines": lines, "n": n})
+        out[ty] = lst
+    return out
